@@ -392,6 +392,39 @@ Proof.
   rewrite calc_unfold. intros H. bind_inv H st Hst. inversion H; subst. auto.
 Qed.
 
+Lemma rule_in g0 X a k :
+  nth_error (rs_get g0 X) k = Some a -> In (X, rs_get g0 X) (right_sides g0) /\ In a (rs_get g0 X).
+Proof.
+  intros H. split; [|eapply nth_error_In; eauto].
+  unfold rs_get in *. destruct (alookup sym_ltb (right_sides g0) X) eqn:E.
+  - apply alookup_In; auto.
+  - destruct k; discriminate.
+Qed.
+
+Lemma DerivesS_mentioned g0 X l : DerivesS g0 X l -> forall Y, In Y l -> Y = X \/ mentioned g0 Y.
+Proof.
+  induction 1 as [|pre n k rhs post HD IH Hn]; intros Y HY.
+  - destruct HY as [<-|[]]. auto.
+  - apply in_app_or in HY. destruct HY as [HY|HY].
+    + apply IH. apply in_or_app. auto.
+    + apply in_app_or in HY. destruct HY as [HY|HY].
+      * right. right. destruct (rule_in _ _ _ _ Hn) as [R1 R2]. eauto 6.
+      * apply IH. apply in_or_app. right. right. auto.
+Qed.
+
+Lemma fo_spec_cases F str y :
+  fo_spec F str y -> y = Eps \/ (is_tm y = true /\ exists s, In s str /\ In y (F s)).
+Proof.
+  induction str as [|s rest IH]; cbn [fo_spec]; auto.
+  intros [[H1 H2]|[H1 H2]].
+  - right. split; auto. exists s. split; [left; auto|auto].
+  - destruct (IH H2) as [->|(A & s' & B & C)]; auto.
+    right. split; auto. exists s'. split; [right; auto|auto].
+Qed.
+
+Lemma In_skipn_l {A} n (l : list A) x : In x (skipn n l) -> In x l.
+Proof. intros H. rewrite <- (firstn_skipn n l). apply in_or_app. auto. Qed.
+
 Section Ext.
   Variables (g : grammar) (S eof : sym).
   Hypothesis WF : wf_grammar g.
@@ -444,9 +477,68 @@ Section Ext.
     fold (rs_get g (Nt (total_nt g + 1))). rewrite rs_get_fresh by lia. reflexivity.
   Qed.
 
+  Let g4 : grammar := ext_grammar g S eof.
+
+  Lemma rs4_eq :
+    right_sides g4 = ainsert sym_ltb (ainsert sym_ltb (right_sides g) Sp [[S]]) En [[eof]].
+  Proof.
+    assert (N1 : alookup sym_ltb (right_sides g) (Nt (total_nt g)) = None).
+    { apply alookup_None_notin. intros v Hv. destruct SOK as (_ & _ & HK).
+      destruct (HK _ _ Hv) as (m & Hm & Hlt). inversion Hm; subst. lia. }
+    assert (N2 : alookup sym_ltb (right_sides g) (Nt (total_nt g + 1)) = None).
+    { apply alookup_None_notin. intros v Hv. destruct SOK as (_ & _ & HK).
+      destruct (HK _ _ Hv) as (m & Hm & Hlt). inversion Hm; subst. lia. }
+    subst g4. unfold ext_grammar, push_alt, create_nt, rs_get. cbn [fst right_sides total_nt].
+    rewrite alookup_ainsert_other by (intros H; inversion H; lia).
+    rewrite N1, N2. reflexivity.
+  Qed.
+
+  Lemma wf4 : wf_grammar g4.
+  Proof.
+    constructor.
+    - rewrite rs4_eq. apply (sorted_ainsert (V := list alternative)).
+      apply (sorted_ainsert (V := list alternative)). exact (wf_sorted g WF).
+    - intros X alts HX. rewrite rs4_eq in HX.
+      apply In_ainsert in HX. destruct HX as [HX|HX]; [inversion HX; subst En; eauto|].
+      apply In_ainsert in HX. destruct HX as [HX|HX]; [inversion HX; subst Sp; eauto|].
+      eapply wf_keys_nt; eauto.
+    - intros X alts alt HX Halt. rewrite rs4_eq in HX.
+      apply In_ainsert in HX. destruct HX as [HX|HX].
+      { inversion HX; subst. destruct Halt as [<-|[]]. intros [H|[]].
+        destruct SOK as (_ & (e & He) & _). congruence. }
+      apply In_ainsert in HX. destruct HX as [HX|HX].
+      { inversion HX; subst. destruct Halt as [<-|[]]. intros [H|[]].
+        destruct SOK as ((s & Hs & _) & _). congruence. }
+      eapply wf_no_eps; eauto.
+    - subst g4. unfold ext_grammar, push_alt, create_nt. cbn [fst first_sets]. exact (wf_fresh g WF).
+  Qed.
+
+  Lemma rule_mentioned4 e a X : fetch_right g5 e = Ok a -> In X a -> mentioned g4 X.
+  Proof.
+    intros HF HX. unfold fetch_right in HF. apply of_opt_Ok in HF. rewrite rs5 in HF.
+    destruct (rule_in _ _ _ _ HF) as [R1 R2]. right. eauto 6.
+  Qed.
+
+  Lemma eof_mentioned4 : mentioned g4 eof.
+  Proof.
+    right. exists En, [[eof]], [eof]. split; [|split; left; auto].
+    rewrite rs4_eq. apply ainsert_In_new.
+  Qed.
+
+  Lemma mentioned4_bound i : mentioned g4 (Tm i) -> i <= max_term g5.
+  Proof. intros H. destruct (C13_maxterm_proof g4 g5 wf4 H5) as [A _]. auto. Qed.
+
+  Lemma first_set_bound X i :
+    In (Tm i) (fs_get (first_sets g5) X) -> X = Tm i \/ mentioned g4 (Tm i).
+  Proof.
+    intros H. destruct (C13_first_sound_sentential g4 g5 wf4 H5 X) as (A & _).
+    destruct (A i H) as [beta Hb].
+    destruct (DerivesS_mentioned _ _ _ Hb (Tm i) (or_introl eq_refl)); auto.
+  Qed.
+
   Definition good (e : item) : Prop :=
     exists n a, i_left e = Nt n /\ (n < total_nt g \/ (n = total_nt g /\ i_follow e = eof)) /\
-                fetch_right g5 e = Ok a.
+                fetch_right g5 e = Ok a /\ sym_index (i_follow e) <= max_term g5.
 
   Lemma fetch_orig e n a :
     i_left e = Nt n -> n < total_nt g -> fetch_right g5 e = Ok a ->
@@ -486,7 +578,7 @@ Section Ext.
   Qed.
 
   Lemma good_adv e : good e -> good (adv e).
-  Proof. intros (n & a & H1 & H2 & H3). exists n, a. auto. Qed.
+  Proof. intros (n & a & H1 & H2 & H3 & H4). exists n, a. exact (conj H1 (conj H2 (conj H3 H4))). Qed.
 
   Lemma good_closure e new x :
     good e -> closure_of g5 e = Ok new -> In x new ->
@@ -504,7 +596,16 @@ Section Ext.
       apply nth_error_None in E. lia. }
     destruct HFx as [ax HFx].
     split; [|split; [auto|split]].
-    - exists n, ax. auto.
+    - exists n, ax. split; auto. split; auto. split; auto.
+      (* the lookahead is the empty symbol or a terminal of the extended grammar *)
+      apply first_In in HFo. apply fo_spec_cases in HFo.
+      destruct HFo as [->|(Htm & s & Hs & HFs)]; [apply N.le_0_l|].
+      apply is_tm_true in Htm. destruct Htm as [i Hi]. rewrite Hi in *. cbn [sym_index].
+      unfold follow_string in Hs. apply in_app_or in Hs. destruct Hs as [Hs|[<-|[]]].
+      + apply In_skipn_l in Hs. apply mentioned4_bound.
+        destruct (first_set_bound _ _ HFs) as [->|Hm]; auto. apply (rule_mentioned4 e a); auto.
+      + destruct (first_set_bound _ _ HFs) as [Hm|Hm]; [|apply mentioned4_bound; auto].
+        destruct Hg as (_ & _ & _ & _ & _ & Hb). rewrite Hm in Hb. exact Hb.
     - eauto.
     - exists a. split; auto. congruence.
   Qed.
@@ -521,8 +622,10 @@ Section Ext.
 
   Lemma good_init : good (mkItem Sp 0 0 eof).
   Proof.
-    exists (total_nt g), [S]. cbn [i_left i_follow]. split; [reflexivity|split; [right; auto|]].
-    unfold fetch_right. cbn [i_left i_alt]. rewrite rs5, rs_ext_Sp. reflexivity.
+    exists (total_nt g), [S]. cbn [i_left i_follow]. split; [reflexivity|split; [right; auto|split]].
+    - unfold fetch_right. cbn [i_left i_alt]. rewrite rs5, rs_ext_Sp. reflexivity.
+    - pose proof SOK as (_ & (e & He) & _). pose proof eof_mentioned4 as Hm. rewrite He in Hm |- *.
+      cbn [sym_index]. apply mentioned4_bound; auto.
   Qed.
 
   Lemma hull0 H : hull g5 [mkItem Sp 0 0 eof] = Ok H -> IInv H /\ forall x, In x H -> i_dot x = 0.
@@ -800,6 +903,14 @@ Section Ext.
       intros k sk Hk. apply HD. lia.
   Qed.
 
+  Lemma SInv_init h : hull g5 [mkItem Sp 0 0 eof] = Ok h -> SInv [mkSt h []].
+  Proof.
+    intros Hh. destruct (hull0 _ Hh) as [A B]. constructor.
+    - exists (mkSt h []). split; auto.
+    - intros [|i] si Hi; cbn [nth_error] in Hi; [inversion Hi; subst; auto|destruct i; discriminate].
+    - intros [|i] si X j Hi HX; cbn [nth_error] in Hi; [inversion Hi; subst; destruct HX|destruct i; discriminate].
+  Qed.
+
   Lemma elements_inv ms h states :
     hull g5 [mkItem Sp 0 0 eof] = Ok h -> elements_loop ms g5 [mkSt h []] 0 = Ok states ->
     SInv states /\ Done (length states) states.
@@ -1011,3 +1122,276 @@ Section Tab.
       + eapply IH; eauto.
   Qed.
 End Tab.
+
+(* ================================================================================================ *)
+(* 8. totality: no step of table generation leaves the vectors                                        *)
+(* ================================================================================================ *)
+Definition fetchable (g : grammar) (e : item) : Prop := exists a, fetch_right g e = Ok a.
+
+Lemma closure_of_total g e : fetchable g e -> exists new, closure_of g e = Ok new.
+Proof. intros [a Ha]. unfold closure_of. rewrite Ha. cbn [bind]. destruct (expecting a e); eauto. Qed.
+
+Lemma closure_of_fetchable g e new x : closure_of g e = Ok new -> In x new -> fetchable g x.
+Proof.
+  intros HC Hx. destruct (closure_of_spec _ _ _ _ HC Hx) as (a & n & _ & _ & HL & _ & HA & _).
+  unfold fetchable, fetch_right, nth_N. rewrite HL.
+  destruct (nth_error (rs_get g (Nt n)) (N.to_nat (i_alt x))) as [ax|] eqn:E; [eexists; reflexivity|].
+  apply nth_error_None in E. lia.
+Qed.
+
+Lemma closure_round_total g : forall todo acc,
+  (forall e, In e todo -> fetchable g e) -> exists r, closure_round g todo acc = Ok r.
+Proof.
+  induction todo as [|e rest IH]; intros acc H; cbn [closure_round]; [eauto|].
+  destruct (closure_of_total g e) as [new Hn]; [apply H; left; auto|]. rewrite Hn. cbn [bind].
+  apply IH. intros e' He'. apply H; right; auto.
+Qed.
+
+Lemma hull_fuel_total g : forall fuel I, (forall e, In e I -> fetchable g e) ->
+  hull_fuel fuel g I = Fuel \/ exists H, hull_fuel fuel g I = Ok H.
+Proof.
+  induction fuel as [|f IH]; intros I HI; cbn [hull_fuel]; [left; reflexivity|].
+  destruct (closure_round_total g I I HI) as [I' HI']. rewrite HI'. cbn [bind].
+  destruct (Nat.eqb (length I') (length I)); [right; eauto|].
+  apply IH. intros x Hx. destruct (closure_round_spec _ _ _ _ HI') as (_ & M2 & _).
+  destruct (M2 x Hx) as [Hx'|(e & new & A & B & C)]; auto. eapply closure_of_fetchable; eauto.
+Qed.
+
+Lemma advance_items_total g X : forall I acc,
+  (forall e, In e I -> fetchable g e) -> exists J, advance_items g I X acc = Ok J.
+Proof.
+  induction I as [|e rest IH]; intros acc H; cbn [advance_items]; [eauto|].
+  destruct (H e (or_introl eq_refl)) as [a Ha]. rewrite Ha. cbn [bind].
+  destruct (sym_eqb (expecting a e) X); apply IH; intros e' He'; apply H; right; auto.
+Qed.
+
+Lemma jump_total g I X :
+  (forall e, In e I -> fetchable g e) -> jump g I X = Fuel \/ exists J, jump g I X = Ok J.
+Proof.
+  intros HI. unfold jump. destruct (advance_items_total g X I [] HI) as [J0 HJ0]. rewrite HJ0. cbn [bind].
+  unfold hull. apply hull_fuel_total. intros x Hx.
+  destruct (advance_items_spec _ _ _ _ _ HJ0 x Hx) as [[]|(e & a & A & B & C & ->)].
+  exists a. rewrite fetch_right_adv. auto.
+Qed.
+
+Lemma befores_total g : forall I acc,
+  (forall e, In e I -> fetchable g e) -> exists ts, befores g I acc = Ok ts.
+Proof.
+  induction I as [|e rest IH]; intros acc H; cbn [befores]; [eauto|].
+  destruct (H e (or_introl eq_refl)) as [a Ha]. rewrite Ha. cbn [bind].
+  destruct (expecting a e); apply IH; intros e' He'; apply H; right; auto.
+Qed.
+
+Lemma znth_range {A} (l : list A) i : (0 <= i < Z.of_nat (length l))%Z -> exists x, znth l i = Some x.
+Proof.
+  intros H. destruct (nth_error l (Z.to_nat i)) as [x|] eqn:E.
+  - exists x. apply znth_of_nth; auto. lia.
+  - apply nth_error_None in E. lia.
+Qed.
+
+Section TabTotal.
+  Variable g5 : grammar.
+  Variable prefix : bool.
+  Variable eof : sym.
+  Local Open Scope N_scope.
+
+  Definition in_row (row : list lr_action) (t : Z) : Prop := (0 <= t < Z.of_nat (length row))%Z.
+
+  Lemma row_get_ok row t : in_row row t -> exists c, row_get row t = Ok c.
+  Proof. intros H. unfold row_get. destruct (znth_range row t H) as [c ->]. cbn [of_opt]. eauto. Qed.
+
+  Lemma row_set_ok row t a : in_row row t -> exists row', row_set row t a = Ok row' /\ length row' = length row.
+  Proof.
+    intros H. unfold row_set. rewrite zupd_ok by exact H. cbn [of_opt]. eexists. split; [reflexivity|].
+    apply length_upd_nat.
+  Qed.
+
+  Lemma place_shift_total st row confs t target :
+    in_row row t -> exists r, place_shift st row confs t target = Ok r /\ length (fst r) = length row.
+  Proof.
+    intros H. unfold place_shift. destruct (row_get_ok row t H) as [c Hc]. rewrite Hc. cbn [bind].
+    destruct (row_set_ok row t (AShift target) H) as (row' & Hr & HL).
+    destruct c; try (rewrite Hr; cbn [bind]); eexists; (split; [reflexivity|]); auto.
+  Qed.
+
+  Lemma place_item_total st acc e t size :
+    in_row (fst acc) t ->
+    exists acc', place_item g5 st acc e t size = Ok acc' /\ length (fst acc') = length (fst acc).
+  Proof.
+    intros H. unfold place_item. destruct (row_get_ok _ t H) as [c Hc].
+    destruct (sym_index (i_left e) =? sprime_index g5).
+    - unfold place_accept. rewrite Hc. cbn [bind].
+      destruct (row_set_ok (fst acc) t AAccept H) as (row' & Hr & HL).
+      destruct c; try (rewrite Hr; cbn [bind]); eexists; (split; [reflexivity|]); auto.
+    - unfold place_reduce. rewrite Hc. cbn [bind].
+      destruct (row_set_ok (fst acc) t (AReduce (sym_index (i_left e)) size (i_left e) (i_alt e)) H)
+        as (row' & Hr & HL).
+      destruct c; try (rewrite Hr; cbn [bind]); eexists; (split; [reflexivity|]); auto.
+  Qed.
+
+  Lemma place_all_total st e size : forall ts acc,
+    (forall t, In t ts -> in_row (fst acc) t) ->
+    exists acc', place_all g5 st acc e size ts = Ok acc' /\ length (fst acc') = length (fst acc).
+  Proof.
+    induction ts as [|t rest IH]; intros acc H; cbn [place_all]; [eauto|].
+    destruct (place_item_total st acc e t size) as (acc1 & E1 & L1); [apply H; left; auto|].
+    rewrite E1. cbn [bind].
+    destruct (IH acc1) as (acc' & E' & L').
+    { intros t' Ht'. unfold in_row. rewrite L1. apply H. right; auto. }
+    exists acc'. split; auto. congruence.
+  Qed.
+
+  Lemma fill_items_total st : forall its acc,
+    length (fst acc) = width g5 ->
+    (forall e, In e its -> fetchable g5 e /\ sym_index (i_follow e) <= max_term g5) ->
+    exists acc', fill_items g5 prefix eof st acc its = Ok acc' /\ length (fst acc') = width g5.
+  Proof.
+    induction its as [|e rest IH]; intros acc HL H; cbn [fill_items]; [eauto|].
+    destruct (H e (or_introl eq_refl)) as [[a Ha] Hf]. rewrite Ha. cbn [bind].
+    assert (H' : forall e', In e' rest -> fetchable g5 e' /\ sym_index (i_follow e') <= max_term g5).
+    { intros e' He'. apply H. right; auto. }
+    destruct (negb (i_dot e =? N.of_nat (length a))); [apply IH; auto|].
+    destruct ((sym_index (i_follow e) =? sym_index eof) && prefix).
+    - destruct (place_all_total st e (N.of_nat (length a)) (map (fun n => Z.of_N n) (count_up (width g5) 0)) acc)
+        as (acc1 & E1 & L1).
+      { intros t Ht. apply in_map_iff in Ht. destruct Ht as (n & <- & Hn). apply In_count_up in Hn.
+        unfold in_row. rewrite HL. lia. }
+      rewrite E1. cbn [bind]. apply IH; auto. congruence.
+    - destruct (place_item_total st acc e (Z.of_N (sym_index (i_follow e))) (N.of_nat (length a)))
+        as (acc1 & E1 & L1).
+      { unfold in_row. rewrite HL. unfold width. lia. }
+      rewrite E1. cbn [bind]. apply IH; auto. congruence.
+  Qed.
+
+  Definition key_ok (jlen : nat) (X : sym) : Prop :=
+    match X with Tm i => i <= max_term g5 | Nt i => (N.to_nat i < jlen)%nat | Eps => True end.
+
+  Lemma fill_jumps_total st : forall js row jrow confs,
+    length row = width g5 ->
+    (forall X j, In (X, j) js -> key_ok (length jrow) X) ->
+    exists row' jrow' confs', fill_jumps st row jrow confs js = Ok (row', jrow', confs') /\
+      length row' = width g5 /\ length jrow' = length jrow.
+  Proof.
+    induction js as [|[X target] rest IH]; intros row jrow confs HL H; cbn [fill_jumps]; [eauto 6|].
+    pose proof (H X target (or_introl eq_refl)) as HX.
+    assert (H' : forall X' j, In (X', j) rest -> key_ok (length jrow) X').
+    { intros X' j HI. eapply H. right; eauto. }
+    destruct X as [|i|i]; cbn [key_ok] in HX.
+    - apply IH; auto.
+    - destruct (place_shift_total st row confs (Z.of_N i) target) as (r & Er & Lr).
+      { unfold in_row. rewrite HL. unfold width. lia. }
+      rewrite Er. cbn [bind]. apply IH; auto. congruence.
+    - rewrite zupd_ok by lia. cbn [of_opt bind].
+      destruct (IH row (upd_nat jrow (Z.to_nat (Z.of_N i)) target) confs HL) as (row' & jrow' & confs' & E & L1 & L2).
+      { rewrite length_upd_nat. auto. }
+      exists row', jrow', confs'. split; auto. split; auto. rewrite L2. apply length_upd_nat.
+  Qed.
+
+  Lemma fill_states_total : forall states st confs,
+    (forall s, In s states ->
+       (forall X j, In (X, j) (st_jump s) -> key_ok (N.to_nat (total_nt g5)) X) /\
+       (forall e, In e (st_items s) -> fetchable g5 e /\ sym_index (i_follow e) <= max_term g5)) ->
+    exists r, fill_states g5 prefix eof st states confs = Ok r.
+  Proof.
+    induction states as [|s rest IH]; intros st confs H; cbn [fill_states]; [eauto|].
+    destruct (H s (or_introl eq_refl)) as [HK HI].
+    destruct (fill_jumps_total st (st_jump s) (zrepeat AErr (width g5))
+                (zrepeat (-1)%Z (N.to_nat (total_nt g5))) confs) as (row1 & jrow1 & confs1 & E1 & L1 & L2).
+    { apply zrepeat_length. }
+    { rewrite zrepeat_length. exact HK. }
+    rewrite E1. cbn [bind]. cbv beta iota.
+    destruct (fill_items_total st (st_items s) (row1, confs1)) as (acc2 & E2 & L3); auto.
+    rewrite E2. cbn [bind].
+    destruct (IH (st + 1)%Z (snd acc2)) as [r3 E3].
+    { intros s' Hs'. apply H. right; auto. }
+    rewrite E3. cbn [bind]. destruct r3 as [[rows jrows] confs3]. eauto.
+  Qed.
+End TabTotal.
+
+Section Total.
+  Variables (g : grammar) (S eof : sym).
+  Hypothesis WF : wf_grammar g.
+  Hypothesis SOK : start_ok g S eof.
+  Hypothesis RC : rhs_closed g.
+  Variable g5 : grammar.
+  Hypothesis H5 : calculate_first_sets (ext_grammar g S eof) = Ok g5.
+  Local Open Scope N_scope.
+
+  Lemma good_fetchable e : good g eof g5 e -> fetchable g5 e.
+  Proof. intros (n & a & _ & _ & H & _). exists a; auto. Qed.
+
+  Lemma state_fetchable states i s :
+    SInv g eof g5 states -> nth_error states i = Some s -> forall e, In e (st_items s) -> fetchable g5 e.
+  Proof. intros HS Hs e He. apply good_fetchable. apply (si_items _ _ _ _ HS _ _ Hs e He). Qed.
+
+  Lemma add_transition_total states i t cur :
+    SInv g eof g5 states -> nth_error states i = Some cur ->
+    add_transition g5 states i t = Fuel \/ exists s', add_transition g5 states i t = Ok s'.
+  Proof.
+    intros HS Hcur. unfold add_transition. rewrite Hcur. cbn [of_opt bind].
+    destruct (jump_total g5 (st_items cur) t) as [HJ|[r HJ]];
+      [eapply state_fetchable; eauto| |]; rewrite HJ; cbn [bind]; [left; reflexivity|].
+    destruct (find_state states r 0%Z) as [k|]; cbv beta iota.
+    - rewrite Hcur. cbn [of_opt bind]. right; eauto.
+    - rewrite nth_error_app1 by (apply nth_error_Some; congruence).
+      rewrite Hcur. cbn [of_opt bind]. right; eauto.
+  Qed.
+
+  Lemma add_transitions_total i I : forall ts states,
+    SInv g eof g5 states -> (exists cur, nth_error states i = Some cur /\ st_items cur = I) ->
+    (forall t, In t ts -> t <> Eps /\ exists e a, In e I /\ fetch_right g5 e = Ok a /\ expecting a e = t) ->
+    add_transitions g5 states i ts = Fuel \/ exists s', add_transitions g5 states i ts = Ok s'.
+  Proof.
+    induction ts as [|t rest IH]; intros states HS (cur & Hcur & HI) Hts; cbn [add_transitions]; [right; eauto|].
+    destruct (add_transition_total states i t cur HS Hcur) as [HA|[s1 HA]]; rewrite HA; cbn [bind];
+      [left; reflexivity|].
+    destruct (Hts t (or_introl eq_refl)) as [Ht Hexp]. rewrite <- HI in Hexp.
+    destruct (add_transition_inv g S eof WF SOK RC g5 H5 states i t s1 cur HS Hcur Ht Hexp HA) as (HS1 & E1 & _).
+    destruct (E1 _ _ Hcur) as (cur1 & P1 & P2 & _).
+    apply IH; auto.
+    - exists cur1. split; auto. congruence.
+    - intros t' Ht'. apply Hts. right; auto.
+  Qed.
+
+  Lemma elements_loop_total : forall fuel states i,
+    SInv g eof g5 states ->
+    elements_loop fuel g5 states i = Fuel \/ exists r, elements_loop fuel g5 states i = Ok r.
+  Proof.
+    induction fuel as [|f IH]; intros states i HS; cbn [elements_loop]; [left; reflexivity|].
+    destruct (nth_error states i) as [cur|] eqn:Ecur; [|right; eauto].
+    destruct (befores_total g5 (st_items cur) []) as [ts Hts]; [eapply state_fetchable; eauto|].
+    rewrite Hts. cbn [bind].
+    pose proof (befores_spec _ _ _ _ Hts) as HB.
+    assert (Hcond : forall t, In t ts -> t <> Eps /\
+              exists e a, In e (st_items cur) /\ fetch_right g5 e = Ok a /\ expecting a e = t).
+    { intros t Ht. apply HB in Ht. destruct Ht as [[]|(e & a & A & B & C & D)]. split; auto.
+      exists e, a. auto. }
+    assert (Hc : exists c, nth_error states i = Some c /\ st_items c = st_items cur) by (exists cur; auto).
+    destruct (add_transitions_total i (st_items cur) ts states HS Hc Hcond) as [HA|[s' HA]];
+      rewrite HA; cbn [bind]; [left; reflexivity|].
+    apply IH.
+    destruct (add_transitions_inv g S eof WF SOK RC g5 H5 i (st_items cur) ts states s' HS Hc Hcond HA)
+      as (HS' & _). exact HS'.
+  Qed.
+
+  (* what fill_states needs to know about the automaton *)
+  Lemma SInv_fill_cond states :
+    SInv g eof g5 states ->
+    forall s, In s states ->
+      (forall X j, In (X, j) (st_jump s) -> key_ok g5 (N.to_nat (total_nt g5)) X) /\
+      (forall e, In e (st_items s) -> fetchable g5 e /\ sym_index (i_follow e) <= max_term g5).
+  Proof.
+    intros HS s Hs. apply In_nth_error in Hs. destruct Hs as [k Hk]. split.
+    - intros X j HX.
+      destruct (si_trans _ _ _ _ HS _ _ _ _ Hk HX) as (HXe & _ & _ & (e & a & He & Ha & Hexp)).
+      apply expecting_nth in Hexp; auto. apply nth_error_In in Hexp.
+      pose proof (proj1 (si_items _ _ _ _ HS _ _ Hk e He)) as Hg.
+      destruct X as [|i|i]; cbn [key_ok]; auto.
+      + apply (mentioned4_bound g S eof WF SOK g5 H5). eapply rule_mentioned4; eauto.
+      + pose proof (good_rhs_nt g S eof SOK RC g5 H5 e a i Hg Ha Hexp) as Hlt.
+        rewrite (tn5 _ _ _ _ H5). lia.
+    - intros e He. pose proof (proj1 (si_items _ _ _ _ HS _ _ Hk e He)) as Hg. split.
+      + apply good_fetchable; auto.
+      + destruct Hg as (_ & _ & _ & _ & _ & Hb). exact Hb.
+  Qed.
+End Total.
